@@ -26,6 +26,8 @@ type Unit struct {
 	Idents     map[string]V        // package-level variables read by the unit (oracles)
 	EffectsOn  bool
 	Alias      map[string]aliasSpec
+	MapKeys    map[string]string // rendered map expression ranged over -> oracle parameter holding its keys
+	failed     string            // set when the unit turned out not to be translatable
 }
 
 // callSpec: a call into the store, the bank, the hooks or another keeper function.
@@ -282,5 +284,73 @@ func init() {
 			Params: []gparam{{Go: "k", T: "Keeper"}, {Go: "ctx"}, {Go: "auction", T: "Auction"}, {Go: "bids__", T: "List Bid", Oracle: true}},
 			Ret:    []LT{"MInfoG", "Err"},
 			Calls:  map[string]callSpec{"k.GetBidsByAuctionId": {Value: V{"(bids__, false)", "(List Bid × Err)"}}}},
+	)
+}
+
+func init() {
+	kctx := []gparam{{Go: "k", T: "Keeper"}, {Go: "ctx"}}
+	codec := callSpec{Value: V{"(%1, !validAcc %1)", "(Acc × Err)"}}
+	auctionOr := []gparam{{Go: "auction__", T: "Auction", Oracle: true}, {Go: "auctionErr__", T: "Err", Oracle: true}}
+	abOr := []gparam{{Go: "ab__", T: "Allowed", Oracle: true}, {Go: "abErr__", T: "Err", Oracle: true}}
+	cat := func(ps ...[]gparam) []gparam {
+		var out []gparam
+		for _, p := range ps {
+			out = append(out, p...)
+		}
+		return out
+	}
+	units = append(units,
+		// ---- types/params.go, keeper/msg_update_params.go
+		Unit{Group: "Msgs", Name: "validateAuctionCreationFee", Pkg: typesP, Func: "validateAuctionCreationFee",
+			Params: []gparam{{Go: "v", T: "Coins"}}, Ret: []LT{"Err"}},
+		Unit{Group: "Msgs", Name: "validatePlaceBidFee", Pkg: typesP, Func: "validatePlaceBidFee",
+			Params: []gparam{{Go: "v", T: "Coins"}}, Ret: []LT{"Err"}},
+		Unit{Group: "Msgs", Name: "validateExtendedPeriod", Pkg: typesP, Func: "validateExtendedPeriod",
+			Params: []gparam{{Go: "_", T: "Int"}}, Ret: []LT{"Err"}},
+		Unit{Group: "Msgs", Name: "Params_Validate", Pkg: typesP, Recv: "Params", RecvLean: "Params", Func: "Validate",
+			Params: []gparam{{Go: "p", T: "Params"}}, Ret: []LT{"Err"}},
+		Unit{Group: "Server", Name: "MsgServer_UpdateParams", Pkg: keeperP, Recv: "msgServer", RecvLean: "msgServer", Func: "UpdateParams",
+			Params: cat(kctx, []gparam{{Go: "req", T: "UpdateParamsMsg"}}), Ret: []LT{"Unit", "Err"}, EffectsOn: true,
+			Calls: map[string]callSpec{
+				"k.addressCodec.StringToBytes": codec,
+				"k.GetAuthority":               {Value: V{"AUTHORITY", "Acc"}},
+				"k.Params.Set":                 {Effect: "paramsSet", Args: []int{1}},
+			}},
+		// ---- keeper/msg_server.go: the message server adds the address-codec check and calls the keeper
+		Unit{Group: "Server", Name: "MsgServer_PlaceBid", Pkg: keeperP, Recv: "msgServer", RecvLean: "msgServer", Func: "PlaceBid",
+			Params: cat(kctx, []gparam{{Go: "msg", T: "PlaceMsgK"}}, auctionOr, []gparam{{Go: "bidID__", T: "Int", Oracle: true},
+				{Go: "bidsByBidder__", T: "List Bid", Oracle: true}}, abOr),
+			Ret: []LT{"Unit", "Err"}, EffectsOn: true, Calls: map[string]callSpec{"k.addressCodec.StringToBytes": codec}},
+		Unit{Group: "Server", Name: "MsgServer_ModifyBid", Pkg: keeperP, Recv: "msgServer", RecvLean: "msgServer", Func: "ModifyBid",
+			Params: cat(kctx, []gparam{{Go: "msg", T: "ModifyMsg"}}, auctionOr, []gparam{{Go: "bid__", T: "Bid", Oracle: true}, {Go: "bidErr__", T: "Err", Oracle: true}}),
+			Ret:    []LT{"Unit", "Err"}, EffectsOn: true, Calls: map[string]callSpec{"k.addressCodec.StringToBytes": codec}},
+		Unit{Group: "Server", Name: "MsgServer_CancelAuction", Pkg: keeperP, Recv: "msgServer", RecvLean: "msgServer", Func: "CancelAuction",
+			Params: cat(kctx, []gparam{{Go: "msg", T: "CancelMsg"}}, auctionOr, []gparam{{Go: "bal__", T: "BankFn", Oracle: true}}),
+			Ret:    []LT{"Unit", "Err"}, EffectsOn: true, Calls: map[string]callSpec{"k.addressCodec.StringToBytes": codec}},
+		Unit{Group: "Server", Name: "MsgServer_CreateFixedPriceAuction", Pkg: keeperP, Recv: "msgServer", RecvLean: "msgServer", Func: "CreateFixedPriceAuction",
+			Params: cat(kctx, []gparam{{Go: "msg", T: "CreateMsg"}, {Go: "now__", T: "Time", Oracle: true}, {Go: "nextId__", T: "Int", Oracle: true}}),
+			Ret:    []LT{"Unit", "Err"}, EffectsOn: true, Calls: map[string]callSpec{"k.addressCodec.StringToBytes": codec}},
+		Unit{Group: "Server", Name: "MsgServer_CreateBatchAuction", Pkg: keeperP, Recv: "msgServer", RecvLean: "msgServer", Func: "CreateBatchAuction",
+			Params: cat(kctx, []gparam{{Go: "msg", T: "CreateMsg"}, {Go: "now__", T: "Time", Oracle: true}, {Go: "nextId__", T: "Int", Oracle: true}}),
+			Ret:    []LT{"Unit", "Err"}, EffectsOn: true, Calls: map[string]callSpec{"k.addressCodec.StringToBytes": codec}},
+	)
+}
+
+func init() {
+	units = append(units,
+		Unit{Group: "Match", Name: "CalculateBatchAllocation", Pkg: keeperP, Recv: "Keeper", RecvLean: "Keeper", Func: "CalculateBatchAllocation",
+			Params: []gparam{{Go: "k", T: "Keeper"}, {Go: "ctx"}, {Go: "auction", T: "Auction"},
+				{Go: "bids__", T: "List Bid", Oracle: true}, {Go: "prices__", T: "List Dec", Oracle: true},
+				{Go: "byPrice__", T: "Map Dec List Bid", Oracle: true}, {Go: "allowed__", T: "List Allowed", Oracle: true},
+				{Go: "keysR__", T: "List Acc", Oracle: true}, {Go: "keysM__", T: "List Acc", Oracle: true}},
+			Ret: []LT{"MInfoG", "Err"}, EffectsOn: true,
+			Calls: map[string]callSpec{
+				"k.GetBidsByAuctionId":         {Value: V{"(bids__, false)", "(List Bid × Err)"}},
+				"types.BidsByPrice":            {Value: V{"(prices__, byPrice__)", "(List Dec × Map Dec List Bid)"}},
+				"k.GetAllowedBiddersByAuction": {Value: V{"(allowed__, false)", "(List Allowed × Err)"}},
+				"k.Bid.Set":                    {Effect: "bidSet", Args: []int{1, 2}},
+				"k.SetMatchedBidsLen":          {Effect: "matchedLenSet", Args: []int{1, 2}},
+			},
+			MapKeys: map[string]string{"reservedAmtByBidder": "keysR__", "matchRes.MatchResultByBidder": "keysM__"}},
 	)
 }
